@@ -112,7 +112,9 @@ Fixpoint pass_lens (prev : Z) (ps : list passrec) : list Z :=
 (* t1.mqc: an MQ decoder, a raw decoder (NewRawDecoder: no contexts), or not yet created *)
 Inductive coder : Type := CoMQ (d : MqModel.dec) | CoRaw (r : MqModel.rawdec) | CoNone.
 
-(* RawDecode() called on an MQ decoder object: it shares c, ct, bp and data with Decode *)
+(* RawDecode() called on an MQ decoder object: it shares c, ct, bp and data with Decode
+   (MqModel.dec_raw_decode, which follows /repo 0df49a6: at bp >= dataLen the reader feeds
+   1-bits without advancing) *)
 Definition raw_on_dec (d : MqModel.dec) : outcome (MqModel.dec * Z) := MqModel.dec_raw_decode d.
 
 Definition coder_ask : ask_t coder := fun co kind ctx =>
